@@ -70,7 +70,7 @@ func C08(r *core.Report) {
 	c08Bounds(r, fns)
 	r.Floor("C08.R1", 8)
 	r.Floor("C08.R3", 20)
-	r.Floor("C08.R6", 10)
+	r.Floor("C08.R6", 4)
 }
 
 // ---- R1 ---------------------------------------------------------------------------------------
